@@ -239,6 +239,38 @@ func (e *integEngine) computeCLIExpect(targets []cliTarget) *cliExpect {
 func runCLIJob(c *Ctl, job *Job, idx int, res *RunResult) {
 	prof := defaultIntegProfile()
 	prof.WAdvance = 1
+	if job.Profile == "cli12" {
+		// cancellation through the command line: abort() (what the signal handler calls) at every step
+		world, variant := idx/cancelVariants, idx%cancelVariants
+		if !c.Ch.replaying {
+			c.Ch.Reseed(seedFor(job.Base^0xc1120001, world))
+		}
+		w, _ := GenCLIWorld(c.Ch, job.Tier == "thorough")
+		for id, pl := range w.Plans {
+			if c.Ch.Bool(1, 4, "ignores-sigint") {
+				pl.Intr, pl.IntrMS = "later", []int{1, 300, 2000}[c.Ch.Choose(3, "kill-delay")]
+			}
+			pl.DurMS += c.Ch.Choose(200, "extra-dur")
+			_ = id
+		}
+		if !c.Ch.replaying {
+			c.Ch.Reseed(seedFor(job.Base^0xc1120002, world))
+		}
+		w.NFaults = 1
+		prof.CancelAt = variant
+		prof.CancelAfter = true
+		prof.UseRunEnter = true
+		prof.UseStageStart = true
+		res.WorldIdx = world
+		res.Sample = map[string]interface{}{"world": w.Summary(), "argv": strings.Join(w.CLIArgs, " "), "abort_at_step": variant}
+		e := RunIntegWorld(c, prof, w, res)
+		if e == nil {
+			return
+		}
+		e.checkC12(e.computeCLIExpect(nil).integ)
+		res.NonTrivial = true
+		return
+	}
 	w, targets := GenCLIWorld(c.Ch, job.Tier == "thorough")
 	res.Sample = map[string]interface{}{"world": w.Summary(), "argv": strings.Join(w.CLIArgs, " ")}
 	e := RunIntegWorld(c, prof, w, res)
